@@ -918,6 +918,7 @@ func (vm *VM) throwGenErr(err error) error {
 }
 
 func (vm *VM) throw(err *RuntimeError, noTrace bool) error {
+	verifSync(vm, "throw")
 	if !noTrace {
 		err.addTrace(vm.getSourcePos())
 	}
